@@ -847,9 +847,22 @@ func stateOf(n *hnode) (raw, start []int, newDB bool) {
 	praw, pstart, pNewDB := stateOf(n.parent)
 	how := hows[n.st.how].text
 	sessionOnHandle := len(n.st.calls) == 0 && how != "Debug" && how != "Begin" // Debug/Begin call getInstance first
-	if sessionOnHandle {
+	if len(n.st.calls) == 0 && !sessionOnHandle {
+		raw = append([]int(nil), pstart...)
+		newDB = how == "Begin" && pNewDB
+		if !newDB {
+			start = raw
+		}
+		return
+	}
+	switch {
+	case sessionOnHandle:
 		raw = praw
-	} else {
+	case def(n.st.calls[0]).fam == "session-init":
+		// Session(...) called straight on the parent handle: it starts from the
+		// Statement object the handle points to, even for a NewDB handle
+		raw = append(append([]int(nil), praw...), n.st.calls...)
+	default:
 		raw = append(append([]int(nil), pstart...), n.st.calls...)
 	}
 	newDB = how == "Session{NewDB}" || (how == "Begin" && pNewDB && len(n.st.calls) == 0)
@@ -1651,6 +1664,15 @@ func genHistory(rt *rapid.T) History {
 	// A Model pointer held by a handle is therefore never the target of a write
 	// finisher: such chains end with a read finisher (the chains would otherwise
 	// communicate through the caller's object, not through gorm's state).
+	// chainBase: what a chain started from handle x begins with - the handle's start
+	// calls, or (first call = Session{Initialized,..} straight on the handle) the
+	// calls behind the Statement object the handle points to
+	chainBase := func(x gh, chainCalls []int) []int {
+		if len(chainCalls) > 0 && def(chainCalls[0]).fam == "session-init" {
+			return x.raw
+		}
+		return x.calls
+	}
 	drawFin := func(handleCalls, chainCalls []int) int {
 		if holdsModel(handleCalls) && !holdsModel(chainCalls) {
 			k := rapid.SampledFrom(readKinds).Draw(rt, "readKind")
@@ -1753,7 +1775,7 @@ func genHistory(rt *rapid.T) History {
 			c.calls = append(append([]int(nil), c.calls...), cs...)
 		case "finish":
 			ci := rapid.IntRange(0, len(live)-1).Draw(rt, "chain")
-			h.Actions = append(h.Actions, Action{Kind: k, C: live[ci].id, Fin: drawFin(handleByID(live[ci].from).calls, live[ci].calls)})
+			h.Actions = append(h.Actions, Action{Kind: k, C: live[ci].id, Fin: drawFin(chainBase(handleByID(live[ci].from), live[ci].calls), live[ci].calls)})
 			finishedAt = append(finishedAt, len(h.Actions)-1)
 			live = append(live[:ci:ci], live[ci+1:]...)
 		case "direct":
@@ -1770,7 +1792,7 @@ func genHistory(rt *rapid.T) History {
 	}
 	// finish what is still live so that every built chain is observed
 	for _, c := range live {
-		h.Actions = append(h.Actions, Action{Kind: "finish", C: c.id, Fin: drawFin(handleByID(c.from).calls, c.calls)})
+		h.Actions = append(h.Actions, Action{Kind: "finish", C: c.id, Fin: drawFin(chainBase(handleByID(c.from), c.calls), c.calls)})
 	}
 	// probes: mostly, every derived handle is finally used once more directly, so that
 	// a lasting change made to it by the history is observed even if no generated chain follows
